@@ -288,6 +288,22 @@ theorem cap_witness :
     (pttLoad idx 4 1 2 false).map (fun p => (p.items.map (·.1), p.next.map (·.1))) = .ok ([1, 2], some 3) := by
   refine ⟨by rfl, by rfl⟩
 
+/-- first access after a restart (`cache.ReloadBCache` zeroes the total): the by-name lookup in front of
+EditPost / CrossPost (`ptt.getFileHeader`, total from `GetBTotalWithRetry`) answers exactly as with the exact
+total — so by `getRecord_eq_lookup` an article that is in the index is found — and leaves the exact total
+cached.  (`hlast`: the re-count accepts the last name: ".d" or parsable.) -/
+theorem lookup_cold_first_access (names : List Name) (nm : Name) (hne : names ≠ [])
+    (hlast : ∀ last, names.getLast? = some last → cstr last = [46, 100] ∨ ∃ t, C13.fnCreateTime last = some t) :
+    lookupByName names 0 nm = lookupByName names names.length nm := lookupByName_cold names nm hne hlast
+
+/-- the broken rule of seeded change C06-r7-2 (bound the lookup by the raw cached total): on a cold cache the
+total is 0 and the lookup refuses every name, whatever the index contains. -/
+def lookupNoRetry (names : List Name) (cached : Int) (nm : Name) : R Unit :=
+  if cached = 0 then .error .invalidFilename
+  else (getRecord (names.map absEntry) (absEntry nm) cached).map (fun _ => ())
+
+theorem cold_witness (names : List Name) (nm : Name) : lookupNoRetry names (reloadTotal names.length) nm = .error .invalidFilename := rfl
+
 /-! #### non-vacuity and witnesses (kernel evaluation of the model) -/
 
 def exIdx : Index :=
